@@ -7,7 +7,7 @@ CONSTANTS
     Sizes = {1, 2}
     MaxSends = 5
     MaxDay = 2
-    MaxRestarts = 2
+    MaxRestarts = 1
     MaxCrash = 0
     MaxFault = 0
     MaxGzWrites = 1
